@@ -32,6 +32,8 @@ def run_property(prop, tier, root, write_evidence=True, quiet=False, selftest=Tr
         R.note('extraction', {'units': len(units), 'cache_hits': fx.cache_hits, 'wall_s': round(fx.wall_s, 2),
                               'function_bodies_seen': len(fx.functions)})
         mod.run(fx, R, tier)
+        from analysis import hidden
+        hidden.sweep(fx, R)
         if tier == 'thorough' and hasattr(mod, 'thorough'):
             mod.thorough(fx, R)
         if tier == 'thorough' and selftest:
